@@ -256,7 +256,7 @@ def run_property(P, tier, seed, replay=None):
         "exhaustive": getattr(P, "exhaustive_note", {}).get(tier, False) and True or False,
         "exhaustive_bound": getattr(P, "exhaustive_note", {}).get(tier, ""),
     }
-    if not replay:
+    if not replay and not os.environ.get("VERIF_NO_EVIDENCE"):
         core.write_evidence(P.id, tier, seed, "proof", coverage, P.assumptions, wall, 1 if rc else 0)
     for l in out_lines:
         print(l)
